@@ -386,7 +386,8 @@ class _FnConv:
             els = self.block(inner[2]) if len(inner) > 2 else []
             return [mk_if(line, cond, then, els)]
         if k == 'ForStmt':
-            return [self.for_stmt(n)]
+            fs_ = self.for_stmt(n)
+            return getattr(self, 'pending_pre', {}).pop(id(fs_), []) + [fs_]
         if k == 'WhileStmt':
             inner = n['inner']
             return [S('while', line, cond=self.expr(inner[0]), body=self.block(inner[-1]))]
@@ -444,6 +445,20 @@ class _FnConv:
         inc_s = self.expr_stmt(inc, line) if inc else []
         body_s = self.block(body)
         self.scopes.pop()
+        # `for (k = 0; c < hi; c++, k++)`: a second counter advanced in lock step is the same loop with `k++` as the last statement of the body (no
+        # `continue` in it) and its initialisation in front of the loop -- one loop form for the rules
+        pre_s = []
+        if cond_e is not None and cond_e[0] == 'bin' and cond_e[1] in ('<', '<=') and cond_e[2][0] == 'var' and len(inc_s) == 2 \
+                and all(t.k == 'assign' and t.target[0] == 'var' and t.aug in ('+',) for t in inc_s) \
+                and not any(t.k == 'continue' for t in walk_stmts_(body_s)):
+            main = [t for t in inc_s if t.target == cond_e[2]]
+            other = [t for t in inc_s if t.target != cond_e[2]]
+            if len(main) == 1 and len(other) == 1:
+                ov = other[0].target
+                keep_init = [t for t in init_s if not ((t.k == 'assign' and t.target == ov) or (t.k == 'decl' and t.name == ov[1]))]
+                moved = [t for t in init_s if t not in keep_init]
+                if all(t.k == 'assign' for t in moved) and len(keep_init) <= 1:
+                    pre_s, init_s, inc_s, body_s = moved, keep_init, main, body_s + other
         # canonical counted loop?
         var = None
         lo = None
@@ -476,9 +491,14 @@ class _FnConv:
         if ok and inclusive and step in (None, ('num', 1)):
             hi, inclusive = ('bin', '+', hi, ('num', 1)), False         # `v <= hi` with a unit step is `v < hi + 1`: one loop form
         if ok:
-            return S('for', line, var=var, lo=lo, hi=hi, step=step, body=body_s, inclusive=inclusive,
-                     declares=(len(init_s) == 1 and init_s[0].k == 'decl'))
-        return S('loop', line, init=init_s, cond=cond_e, inc=inc_s, body=body_s)
+            res = S('for', line, var=var, lo=lo, hi=hi, step=step, body=body_s, inclusive=inclusive,
+                    declares=(len(init_s) == 1 and init_s[0].k == 'decl'))
+        else:
+            res = S('loop', line, init=init_s, cond=cond_e, inc=inc_s, body=body_s)
+        if pre_s:
+            self.pending_pre = getattr(self, 'pending_pre', {})
+            self.pending_pre[id(res)] = pre_s
+        return res
 
     def omp(self, n):
         line = n.get('_line')
